@@ -91,7 +91,7 @@ def scene_case(spec):
 
 def run(res):
     quick = res.tier == "quick"
-    specs = [dict(seed=res.seed, idx=i, max_patches=(16 if quick else 30)) for i in range(12 if quick else 120)]
+    specs = [dict(seed=res.seed, idx=i, max_patches=(16 if quick else 30)) for i in range(12 if quick else 240)]
     for r in fw.run_parallel(scene_case, specs):
         res.absorb(r)
     res.rule = ("shoebox scenes with 2-6 bands, band-dependent absorption / random tables / attenuation; the "
